@@ -356,6 +356,7 @@ type rEnv struct {
 	post    *State // state at the evaluation point
 	useOld  bool
 	useHead bool
+	invClause bool // the clause under evaluation is a loop invariant (not a per-iteration body clause)
 	useEntry bool
 	headVars, entryVars map[string]Value // named locals as they were at the loop head / at loop entry
 	vars    map[string]Value // lets, spec params, function params, results
